@@ -374,6 +374,12 @@ def expect_ret_const(F, c):
     allowed = c if isinstance(c, (set, frozenset)) else {c}
     vals = ret_values(F)
     if not vals:
+        a = after_site(F)
+        if a is not None:
+            # a live site from which nothing returns: a trap (noreturn callee) is fine, a closed cycle is non-termination
+            blocks = [b for b in F.blocks if b['id'] in a and b['id'] in F.reachable()]
+            if blocks and not any(b['insts'][-1]['op'] == 'unreachable' for b in blocks):
+                return False, 'no return is reachable from the site: under the hypothesis the function loops forever'
         return True, 'no reachable ret'
     for v in vals:
         s = _const_set(F, v)
